@@ -323,6 +323,15 @@ fn stream_case(w: &[&str]) -> Option<String> {
     for t in &w[1..] {
         msgs.push(unhex(t)?);
     }
+    // a hang is only believed when it happens twice, the second time with a three times longer timeout
+    let first = stream_once(msgs.clone(), 3000);
+    if first != "HANG" {
+        return Some(first);
+    }
+    Some(stream_once(msgs, 9000))
+}
+
+fn stream_once(msgs: Vec<Vec<u8>>, timeout_ms: u64) -> String {
     // The connection is driven on its own thread: if the socket-reader task panics, zbus' executor thread dies and
     // the stream never ends; that is reported as HANG after a generous timeout (normal cases finish in milliseconds).
     let (tx, rx) = std::sync::mpsc::channel::<String>();
@@ -359,10 +368,10 @@ fn stream_case(w: &[&str]) -> Option<String> {
         });
         let _ = tx.send(r.unwrap_or_else(|_| "SETUPERR".into()));
     });
-    Some(match rx.recv_timeout(std::time::Duration::from_millis(4000)) {
+    match rx.recv_timeout(std::time::Duration::from_millis(timeout_ms)) {
         Ok(s) => s,
         Err(_) => "HANG".into(),
-    })
+    }
 }
 
 fn main() {
